@@ -167,6 +167,41 @@ def reverse_bm_UA(B):
     return {'qa': rec['a'], 'qb': rec['b'], 'W': W, 'U': U, 'A': A}
 
 
+def tree_points(B):
+    """BrownianTree: two POINT evaluations tree(p1), tree(p2) and one interval query on the same wrapper object (the interval object
+    behind it is a recording fake): what is asked of the interval object, and what is returned"""
+    p1, p2, qa, qb = B.t('p1'), B.t('p2'), B.t('qa'), B.t('qb')
+    w0 = B.x('w0', ())
+    vals = [B.x('Wa', ()), B.x('Wb', ()), B.x('Wc', ())]
+    rec = []
+
+    class Interval:
+        def __init__(self, **kw):
+            self.kw = kw
+
+        def __call__(self, ta, tb=None, return_U=False, return_A=False):
+            rec.append((ta, tb))
+            return vals[len(rec) - 1]
+
+    class _W0:  # what the constructor reads off `w0`
+        shape, dtype, device = (), torch.float64, torch.device('cpu')
+
+    # the real constructor, with the BrownianInterval class it instantiates replaced by the recording fake
+    saved = derived.brownian_interval.BrownianInterval
+    derived.brownian_interval.BrownianInterval = Interval
+    try:
+        tree = derived.BrownianTree(t0=0.0, w0=_W0(), t1=1.0, entropy=3)
+    finally:
+        derived.brownian_interval.BrownianInterval = saved
+    assert tree._interval.kw.get('halfway_tree') is True
+    tree._w0 = w0
+    v1 = tree(p1)
+    v2 = tree(p2)
+    v3 = tree(qa, qb)
+    assert rec[0][1] is None and rec[1][1] is None
+    return {'v1': v1, 'v2': v2, 'v3': v3, 'q1': rec[0][0], 'q2': rec[1][0], 'q3a': rec[2][0], 'q3b': rec[2][1]}
+
+
 def levy(B, mode, batch=1):
     """_davie_foster_approximation for `batch` rows with m = 2 channels."""
     W, H = B.x('W', (batch, 2)), B.x('H', (batch, 2))
